@@ -950,19 +950,18 @@ class InterpMixin:
     def symbolic_comprehension(self, gen, coll, inner, elt):
         """[elt for target in coll if conds] with coll symbolic."""
         ntaken = len(self.taken)
-        if isinstance(coll, SymSeq) and not gen.ifs:
-            base = coll
+        if isinstance(coll, SymSeq):
+            def body(elem_value, s2):
+                self.assign(gen.target, elem_value, s2)
+                conds = []
+                for c in gen.ifs:
+                    r = self.eval(c, s2)
+                    if not isinstance(r, (bool, SymBool)):
+                        raise Unsupported("non-boolean filter in symbolic comprehension")
+                    conds.append(to_term(r))
+                return elt(s2), (z3.And(*conds) if conds else None)
 
-            def elem(i, base=base):
-                s2 = Scope(parent=inner.parent, module=inner.module, cls=getattr(inner, "cls", None))
-                self.assign(gen.target, base.elem(i), s2)
-                n0 = len(self.taken)
-                v = elt(s2)
-                if len(self.taken) != n0:
-                    raise Unsupported("forking element expression in symbolic map-comprehension")
-                return v
-
-            return SymSeq(base.length, elem, name=f"map({base.name})")
+            return self.seq_map_filter(coll, lambda ev: body(ev, Scope(parent=inner.parent, module=inner.module, cls=getattr(inner, "cls", None))))
         # filtered: result known through membership only
         mem, sort, ev = self.coll_member(coll)
         x = self.fresh("ce", sort)
@@ -990,6 +989,57 @@ class InterpMixin:
                 name=f"image({getattr(coll,'name','?')})",
             )
         raise Unsupported("structured element in filtered symbolic comprehension")
+
+    def eval_template(self, base, fn):
+        """Evaluate fn(element at a fresh index i0) once, under 0<=i0<len.
+        Forks are not allowed; assumptions made during evaluation are kept,
+        universally closed over i0."""
+        i0 = self.fresh("ti", z3.IntSort())
+        guard = z3.And(i0 >= 0, i0 < to_term(base.length))
+        npc = len(self.pc)
+        npend = len(self.pending)
+        self.pc.append(guard)
+        try:
+            v = fn(base.elem(i0))
+        finally:
+            new = self.pc[npc + 1 :]
+            del self.pc[npc:]
+        if len(self.pending) != npend:
+            del self.pending[npend:]
+            raise Unsupported("forking while evaluating the element expression of a symbolic sequence")
+        if new:
+            self.pc.append(z3.ForAll([i0], z3.Implies(guard, z3.And(*new))))
+        return i0, v
+
+    def seq_map_filter(self, base, fn):
+        """[elt for x in base if cond]; fn(elem)->(value, cond-term|None)."""
+        i0, (v, cond) = self.eval_template(base, fn)
+        if cond is None:
+            return SymSeq(base.length, None, name=f"map({base.name})", i0=i0, template=v)
+        # filtered list comprehension semantics (language axiom): the result
+        # enumerates, in order, exactly the positions of base satisfying cond.
+        I = z3.IntSort()
+        nF = self.fresh("flen", I)
+        src = z3.Function(f"src!{self.fresh_n}", I, I)
+        pos = z3.Function(f"pos!{self.fresh_n}", I, I)
+        j, j2 = z3.Int(f"fj!{self.fresh_n}"), z3.Int(f"fk!{self.fresh_n}")
+        nB = to_term(base.length)
+        c_at = lambda t: z3.substitute(cond, (i0, t))
+        ax = z3.And(
+            nF >= 0, nF <= nB,
+            z3.ForAll([j], z3.Implies(z3.And(j >= 0, j < nF), z3.And(src(j) >= 0, src(j) < nB, c_at(src(j)), pos(src(j)) == j), ), patterns=[src(j)]),
+            z3.ForAll([j, j2], z3.Implies(z3.And(j >= 0, j < j2, j2 < nF), src(j) < src(j2)), patterns=[z3.MultiPattern(src(j), src(j2))]),
+            z3.ForAll([j], z3.Implies(z3.And(j >= 0, j < nB, c_at(j)), z3.And(pos(j) >= 0, pos(j) < nF, src(pos(j)) == j)), patterns=[pos(j)]),
+        )
+        self.assume(ax, why="semantics of filtered list comprehension")
+        k0 = self.fresh("fi", I)
+        tmpl = subst_value(v, [(i0, src(k0))])
+        out = SymSeq(wrap(nF), None, name=f"filter({base.name})", i0=k0, template=tmpl)
+        out.src = src
+        out.pos = pos
+        out.base = base
+        out.cond = (i0, cond)
+        return out
 
     def coll_member(self, coll):
         """(member predicate on raw term, element sort, term->value)."""
